@@ -8,7 +8,11 @@
    Asserted: every region a stub touches lies inside the caller's exact-size pcm buffer or inside the scratch arrays the function allocates
    (bounds checks); redundancy split keeps the CELT part inside the packet; the returned duration follows the rule C01_native.c's stub
    assumes; concealment never decodes more than st->frame_size for DTX payloads; rangeFinal == 0 for DTX/PLC.
-   -DFSI (rate index) ; decode_gain == 0 (the gain law needs libm exp and is outside the claim). */
+   -DFSI (rate index) ; decode_gain == 0 (the gain law needs libm exp and is outside the claim).
+   -DGAIN (C19-H5): decode_gain is any non-zero value, exp() returns an arbitrary positive factor G, frames and requests are at most 10 ms.
+   The synth stubs write 0.5 at both ends of the region they produce and the cross-fade stub starts at its first input and ends at its
+   second; asserted: the first and the last sample of the returned frame are exactly 0.5*G - the gain is applied once, to the whole
+   frame, whatever the mode history (transitions, redundancy, concealment). */
 #include "common.h"
 #define smooth_fade smooth_fade_REAL
 #include "opus_decoder.c"
@@ -19,6 +23,10 @@ static const unsigned char *g_pkt; static int g_pktlen;
 static CELTMode g_mode; static float g_window[120];
 /* a region [p, p+n) of floats is acceptable if it lies inside the caller buffer; scratch VLAs are separate objects whose bounds cbmc checks on the touch */
 static void touch(float *p,int n){ if(n>0){ p[0]=0.5f; p[n-1]=0.5f; } }
+#ifdef GAIN
+static float g_G; static int g_exp_calls;
+double exp(double x){ g_exp_calls++; return (double)g_G; }
+#endif
 opus_int silk_Decode(void *decState, silk_DecControlStruct *dc, opus_int lostFlag, opus_int newPacketFlag, ec_dec *rd, opus_res *out, opus_int32 *nOut, int arch){
   g_silk_calls++;
   VASSERT(dc->API_sampleRate==g_Fs && dc->nChannelsAPI==g_ch,"SILK is told the API rate and channels");
@@ -50,13 +58,24 @@ int celt_decoder_ctl(CELTDecoder *st, int request, ...){ va_list ap; va_start(ap
 opus_int silk_ResetDecoder(void *s){ return 0; }
 void stub_fade(const opus_res *in1, const opus_res *in2, opus_res *out, int overlap, int channels, const celt_coef *window, opus_int32 Fs){
   VASSERT(overlap==Fs/400 && channels==g_ch,"cross-fades are 2.5 ms long");
-  float a=in1[0]+in1[overlap*channels-1]+in2[0]+in2[overlap*channels-1]; (void)a; touch(out,overlap*channels); }
+  float a=in1[0]+in1[overlap*channels-1]+in2[0]+in2[overlap*channels-1]; (void)a;
+#ifdef GAIN
+  { float f=in1[0], l=in2[overlap*channels-1]; out[0]=f; out[overlap*channels-1]=l; }      /* a cross-fade starts at its first input and ends at its second */
+#else
+  touch(out,overlap*channels);
+#endif
+}
 static const int FSV[5]={8000,12000,16000,24000,48000};
+#define FSMAX (FSI==0?8000:FSI==1?12000:FSI==2?16000:FSI==3?24000:48000)
 void harness(void){
   struct { OpusDecoder d; char tail[64]; } S; OpusDecoder *st=&S.d;
   st->Fs=FSV[FSI]; g_Fs=st->Fs; st->channels=vt_range(1,2); g_ch=st->channels;
   st->silk_dec_offset=sizeof(OpusDecoder); st->celt_dec_offset=sizeof(OpusDecoder)+32;
   st->DecControl.API_sampleRate=st->Fs; st->DecControl.nChannelsAPI=st->channels; st->arch=0; st->decode_gain=0; st->complexity=vt_range(0,10);
+#ifdef GAIN
+  st->decode_gain=vt_range(-32768,32767); __CPROVER_assume(st->decode_gain!=0);
+  g_G=vt_float(); __CPROVER_assume(g_G>=0.0078125f && g_G<=128.f);
+#endif
   st->stream_channels=vt_range(1,2);
   { int m=vt_range(1,3); st->mode = m==1?MODE_SILK_ONLY: m==2?MODE_HYBRID:MODE_CELT_ONLY; }
   { int m=vt_range(0,3); st->prev_mode = m==0?0: m==1?MODE_SILK_ONLY: m==2?MODE_HYBRID:MODE_CELT_ONLY; }
@@ -71,14 +90,30 @@ void harness(void){
   __CPROVER_assume(st->mode!=MODE_SILK_ONLY || st->frame_size>=F10);
   __CPROVER_assume(st->mode!=MODE_HYBRID || (st->frame_size==F10||st->frame_size==F20));
   __CPROVER_assume(st->mode!=MODE_CELT_ONLY || st->frame_size<=F20);
+#ifdef GAIN
+  __CPROVER_assume(st->frame_size<=F10);
+#endif
   int len=vt_range(0,PL);
   VT_TAILBUF(pkt,len,PL);
   g_pkt=pkt; g_pktlen=len;
+#ifdef PLCONLY
+  int usenull=1; int fec=0;                 /* concealment requests only: no packet bytes reach the range decoder (quick tier) */
+#else
   int usenull=vt_range(0,1); int fec=vt_range(0,1);
+#endif
   int frame_size=vt_range(0,6*F20+3);
   /* stated bound: the "no packet decoded yet" path (prev_mode==0: a plain zero-fill loop over the request) only for requests up to 20 ms */
   __CPROVER_assume((st->prev_redundancy?MODE_CELT_ONLY:st->prev_mode)!=0 || frame_size<=F20);
+#ifdef GAIN
+  __CPROVER_assume(frame_size<=F10);
+#endif
+#ifdef PLCONLY
+  /* quick-tier bound: requests up to 20 ms (+3 samples); the buffer ENDS at the end of its object, so a write behind the request is a bounds failure */
+  __CPROVER_assume(frame_size<=F20+3);
+  g_cap=frame_size*st->channels; static float pcm_store[2*(FSMAX/50+3)]; g_pcm=pcm_store+(2*(FSMAX/50+3)-g_cap);
+#else
   g_cap=frame_size*st->channels; g_pcm=(float*)vt_alloc(sizeof(float)*g_cap);
+#endif
   int fs0=st->frame_size, mode0=st->mode, pm0=st->prev_mode, pr0=st->prev_redundancy;
   int r=opus_decode_frame(st, usenull?(const unsigned char*)0:pkt, usenull?0:len, g_pcm, frame_size, fec);
   VASSERT(r==OPUS_BUFFER_TOO_SMALL||r==OPUS_BAD_ARG||r==OPUS_INTERNAL_ERROR||(r>0&&r<=frame_size),"documented error or 0 < n <= frame_size");
@@ -98,5 +133,18 @@ void harness(void){
       VASSERT(st->rangeFinal==0,"final range is 0 for DTX / concealment");
     }
   }
+#ifdef GAIN
+  if(r>0 && g_silk_calls+g_celt_calls>0){
+    VASSERT(g_exp_calls>=1,"a non-zero gain is applied");
+    VASSERT(g_pcm[0]==0.5f*g_G,"first sample of the frame carries the gain exactly once");
+    VASSERT(g_pcm[r*g_ch-1]==0.5f*g_G,"last sample of the frame carries the gain exactly once");
+  }
+  VWITNESS(r>0 && !plc && g_celt_calls>=1 && g_pcm[0]==0.5f*g_G && g_G==2.f);
+#else
+#ifdef PLCONLY
+  VWITNESS(r>0 && plc && g_celt_calls>=1 && r==F5);
+#else
   VWITNESS(r>0 && !plc && g_silk_calls>=1 && g_celt_calls>=1);
+#endif
+#endif
 }
